@@ -83,7 +83,7 @@ $(B)/tool/csg_reupdate.o: $(REPO)/csg/src/tools/csg_reupdate.cc | $(GEN)/.stamp
 # without optimisation so that flowing off the end cannot be treated as unreachable
 $(B)/tool/partial_rdf.o: $(REPO)/csg/src/csgapps/partial_rdf/partial_rdf.cc | $(GEN)/.stamp
 	@mkdir -p $(dir $@)
-	$(CXX) $(CXXFLAGS) -O0 -I$(REPO)/csg/src/csgapps/partial_rdf -Dmain=tool_main -c $< -o $@
+	$(CXX) $(CXXFLAGS) -O0 -fno-sanitize=return -I$(REPO)/csg/src/csgapps/partial_rdf -Dmain=tool_main -c $< -o $@
 $(B)/tool/template_threaded.o: $(REPO)/csg/share/template/template_threaded.cc | $(GEN)/.stamp
 	@mkdir -p $(dir $@)
 	$(CXX) $(CXXFLAGS) -Dmain=tool_main -c $< -o $@
